@@ -452,6 +452,39 @@ def rule_no_shared_lock_across_client_io(ctx, r):
              idx.cls(f"{LOCAL}:Server").where)
 
 
+def rule_logging_cannot_raise(ctx):
+    """The pool logs from inside its exception handlers (a failing task, a misbehaving client); those calls must not raise themselves.  The standard
+    library's handlers guarantee that (Handler.handleError swallows I/O errors of emit); a handler class of the repository must keep the guarantee:
+    its emit() body is one try whose except-all hands the record to self.handleError."""
+    idx = ctx.index
+    r7 = ctx.rule("R7", "logging cannot raise into the pool: log handlers defined by gwf keep the standard library's emit()/handleError contract")
+    n = 0
+    for ci in idx.classes.values():
+        bases = [idx.canon(b, ci.module) or "" for b in ci.base_exprs if isinstance(b, (ast.Name, ast.Attribute))]
+        if not any(b.startswith("logging.") and b.endswith("Handler") for b in bases):
+            continue
+        emit = idx.method(ci, "emit")
+        if emit is None or emit.cls is not ci:
+            n += 1
+            r7.ok(f"{ci.module.relpath}::{ci.name}", "inherits emit() from the standard library", ci.where)
+            continue
+        n += 1
+        body = [s for s in emit.node.body if not (isinstance(s, ast.Expr) and isinstance(s.value, ast.Constant))]
+        ok = False
+        if len(body) == 1 and isinstance(body[0], ast.Try):
+            for h in body[0].handlers:
+                catches_all = h.type is None or (isinstance(h.type, ast.Name) and h.type.id in ("Exception", "BaseException"))
+                calls_he = any(isinstance(c, ast.Call) and isinstance(c.func, ast.Attribute) and c.func.attr == "handleError" for c in ast.walk(h))
+                reraises = any(isinstance(x, ast.Raise) for x in ast.walk(h))
+                if catches_all and calls_he and not reraises:
+                    ok = True
+        r7.check(ok, f"{ci.module.relpath}::{ci.name}.emit", "emit() is one try block whose except-all calls self.handleError(record)",
+                 f"{ci.name}.emit() can raise (e.g. OSError/BrokenPipeError when the pool's stderr is gone): every logger call then raises at its call site - inside the pool's "
+                 "`except` blocks that mark a task FAILED or drop a bad connection - so an accepted task never reaches a final state or the whole pool dies", emit.where)
+    if n == 0:
+        r7.ok("src/gwf::log-handlers", "gwf defines no log handler class: only standard-library handlers (whose emit() never raises) are installed", "src/gwf/cli.py:1")
+
+
 def run(ctx):
     """Structural rules first; the connection handler, the client and enqueue_task evaluated on recorded sessions decide where the
     structural rules do not recognise the shape (dispatch tables, helper methods, constants for the message kinds)."""
@@ -472,6 +505,7 @@ def run(ctx):
         r0.info("src/gwf/backends/local.py::Server", f"structural analysis stopped: {type(exc).__name__}: {str(exc)[:120]}")
         for r in ctx.rules[n0:]:
             r.min_instances = 0
+    rule_logging_cannot_raise(ctx)
     rules = ctx.rules[n0:]
     if not ws[1]:  # differences are reported by R4's session check; only an agreeing evaluation may override shape complaints
         ctx.reconcile(rules, lambda c: "Server.handle_connection" in c or "Server.start_server" in c, ws, "src/gwf/backends/local.py::Server.handle_connection", "src/gwf/backends/local.py:1")
